@@ -23,7 +23,7 @@ WITH_FAIL=$(sed -n '/WITH the change/,$p' "$LOG" | grep -c "test result: FAILED"
 echo "## existing suite WITH the change (demonstration file removed)" >> "$LOG"
 rm -f "$WT/$DEST/"$(ls "$SD"/demo/*.rs | xargs -n1 basename | tr '\n' ' ')
 for f in "$SD"/demo/*.rs; do rm -f "$WT/$DEST/$(basename "$f")"; done
-cargo test --workspace --offline 2>&1 | grep -E "test result|FAILED|failed" >> "$LOG"
+cargo test --workspace --offline -- --test-threads=1 2>&1 | grep -E "test result|FAILED|failed" >> "$LOG"  # one thread: it_aws::test_list_buckets races with its siblings under the default harness (the baseline runs one process per test)
 SUITE_FAIL=$(sed -n '/existing suite/,$p' "$LOG" | grep -c "FAILED")
 cd /; git -C /repo worktree remove --force "$WT"; rm -rf "$WT"
 echo "## summary: demo_passes_without=$WITHOUT demo_fails_with=$WITH_FAIL suite_failures_with=$SUITE_FAIL" | tee -a "$LOG"
